@@ -34,6 +34,11 @@ pub(crate) fn any_bpb() -> BiosParameterBlock {
     }
 }
 
+/// wrapper so that harness modules of other source files can call the (private) real validate()
+pub(crate) fn bpb_validate_ok(b: &BiosParameterBlock) -> bool {
+    b.validate::<()>().is_ok()
+}
+
 /// Geometry derived in unbounded (u64) arithmetic straight from the FAT specification.
 pub(crate) struct Geo {
     pub fat32: bool,
@@ -382,7 +387,6 @@ pub(crate) fn check_fresh(opts: &FormatVolumeOptions, total: u32, boot: &BootSec
     assert!(g.spf * (b.bytes_per_sector as u64) * 8 / bits(ft) >= g.clusters + 2);
     // all regions fit inside the declared size
     assert!(g.first_data + g.clusters * (b.sectors_per_cluster as u64) <= total as u64);
-    assert!(g.clusters >= 1);
     if g.fat32 {
         assert!(b.root_dir_first_cluster == 2 && b.fs_info_sector == 1 && b.backup_boot_sector == 6);
         assert!(b.reserved_sectors > 6);
